@@ -368,7 +368,13 @@ func zkHistory(t *testing.T, out *verifh.Out, r *rand.Rand, idx int, mode string
 		}
 		if x := r.Intn(100); x < envP {
 			c := cl[r.Intn(len(cl))]
-			switch r.Intn(5) {
+			switch r.Intn(6) {
+			case 5:
+				// the ensemble ends the session while the client is connected (e.g. after a pause of the client that it
+				// did not notice itself): the connection is closed, the client learns about the expiry when it reconnects
+				// at once and gets a fresh session — it is never without a session for a full session time-out
+				srv.Expire(c.name)
+				zkSettle(time.Duration(1+r.Intn(2)) * time.Second)
 			case 0, 1:
 				// the session expires at the server (E5: the client is cut off first and notices before)
 				srv.CutConn(c.name)
@@ -420,10 +426,14 @@ func zkHistory(t *testing.T, out *verifh.Out, r *rand.Rand, idx int, mode string
 		if len(pend) > 0 {
 			i := r.Intn(len(pend))
 			fate := ""
+			lostP, dropP := 3, 6
+			if mode == "lock" {
+				lostP, dropP = 10, 14 // ReleaseLock / AcquireLock under lost replies is where retries matter
+			}
 			switch x := r.Intn(100); {
-			case x < 3:
+			case x < lostP:
 				fate = "lost"
-			case x < 6:
+			case x < dropP:
 				fate = "dropped"
 			}
 			srv.Serve(i, fate)
@@ -473,9 +483,9 @@ func TestVerifC15(t *testing.T) {
 	out := verifh.Open(t)
 	defer out.Close()
 	r := verifh.Rand()
-	n := verifh.Pick(300, 3000)
+	n := verifh.Pick(400, 4000)
 	for i := 0; i < n; i++ {
-		mode := []string{"seq", "gated", "seq", "gated", "lock"}[i%5]
+		mode := []string{"seq", "gated", "lock", "gated", "lock"}[i%5]
 		seed := r.Int63()
 		synctest.Test(t, func(t *testing.T) {
 			zkHistory(t, out, rand.New(rand.NewSource(seed)), i, mode)
